@@ -24,6 +24,7 @@ EXPLANATION = (
     "one value per slot (no configuration-dependent exclusion). NOT decided: that an independent decoder reads the bytes "
     "msgpack produces; golden corpus."
     " Also decided (rules added after the fifth blind round): (R2.7) every element typedlist._pack writes is the packed form of a value of the element type."
+    " Rules added after the sixth blind round: (R2.8) RecordDescriptor._unpack hands name and field list to the constructor unchanged; (R2.9) no _pack method of a field type stores an attribute on the value it packs."
 )
 RULE_SUMMARY = "instances: format facts resolved at their points of use; non-trivial = required folding through names/partials or a dataflow walk"
 
